@@ -56,6 +56,9 @@
 (*   pre    the caller's context is already done when the call starts         *)
 (*   bar    0: a failing Read returns at once;  k > 0: it holds its callers   *)
 (*          until k of them are inside (or the reader's time limit passes)    *)
+(*   heal   FALSE: once exhausted the source fails for ever;  TRUE: a single  *)
+(*          Read fails, after it the source works again (a transient fault:   *)
+(*          one producer reports an error, the others go on finding primes)   *)
 EXTENDS Integers, FiniteSets, TLC
 
 CONSTANTS Configs, SendSelectsOnCancel, CloseBeforeWait,
@@ -70,6 +73,8 @@ CodePrimeCap(c) == c.c * c.n
 CodeErrCap(c)   == c.c
 (* a buffered channel is modelled by its length; capacity 0 (rendezvous) is outside this model *)
 ASSUME \A c \in Configs : PrimeCapOf(c) >= 1 /\ ErrCapOf(c) >= 1
+(* a reader that holds its callers back fails all of them: no barrier at a transient fault *)
+ASSUME \A c \in Configs : c.heal => c.bar = 0 /\ c.budget # Inf
 
 VARIABLES
   cfg,          \* the configuration of this call
@@ -150,7 +155,8 @@ PReadHold(i) ==
 PReadFail(i) ==
   /\ ppc[i] \in {"read", "held"} /\ reads = 0 /\ barOpen
   /\ ppc' = [ppc EXCEPT ![i] = "senderr"] /\ readFailed' = TRUE
-  /\ UNCHANGED <<cfg, barOpen, cpc, spawned, primeLen, errLen, primeClosed, errClosed, extDone, ownCancel, reads,
+  /\ reads' = IF cfg.heal THEN Inf ELSE reads
+  /\ UNCHANGED <<cfg, barOpen, cpc, spawned, primeLen, errLen, primeClosed, errClosed, extDone, ownCancel,
                  wg, got, outcome, sendPanic, lateSteps>>
 
 ReadOK == reads # 0 /\ reads' = IF reads = Inf THEN Inf ELSE reads - 1
@@ -303,15 +309,15 @@ HeldOnlyAtFailure == Held # {} => reads = 0 /\ cfg.bar > 0
 
 (* "returns the requested number of pairs" or an error - and each error has its cause *)
 ResultCount == outcome # "none" =>
-  /\ outcome = "primes"    => got = cfg.n /\ (cfg.budget = Inf \/ cfg.budget - reads >= cfg.n)
+  /\ outcome = "primes"    => got = cfg.n /\ (cfg.budget = Inf \/ (cfg.heal /\ readFailed) \/ cfg.budget - reads >= cfg.n)
   /\ outcome = "cancelled" => extDone
-  /\ outcome = "entropy"   => readFailed /\ reads = 0
+  /\ outcome = "entropy"   => readFailed /\ (reads = 0 \/ cfg.heal)
 (* no error without a cause: an undisturbed call with a working entropy source can only return primes *)
 NoSpuriousError == (outcome \in {"cancelled", "entropy"}) => (extDone \/ readFailed)
 (* a context that is done before the call yields nothing but the cancellation error; *)
 (* an entropy source that fails at the first read never yields primes               *)
 PreCancelled == cfg.pre /\ outcome # "none" => outcome = "cancelled" /\ reads = cfg.budget
-NoEntropyNoPrimes == cfg.budget # Inf /\ cfg.budget < cfg.n => outcome # "primes"
+NoEntropyNoPrimes == cfg.budget # Inf /\ cfg.budget < cfg.n /\ ~cfg.heal => outcome # "primes"
 
 (* "stops promptly ... when its context is cancelled": once the caller's ctx is done the consumer begins   *)
 (* at most n further iterations of its loop (each may still pick a buffered result), and (liveness, weak  *)
